@@ -502,6 +502,118 @@ def rule_not_an_input(prog, fixture=False):
     return r
 
 
+# ---------------------------------------------------------------- R-C12-4
+def _ends_with_slash_states(fn, g, d):
+    """Forward must-analysis: 'the string variable d certainly ends in a slash' per CFG block entry."""
+    cfg = fn.cfg
+
+    def is_slash(e):
+        e = strip_all(e)
+        if e is None:
+            return False
+        if folded(e) == 47:
+            return True
+        return e.get("k") == "StringLiteral" and (e.get("s") or "").endswith("/")
+
+    def transfer(st, x):
+        k = x.get("k")
+        if k == "CXXMemberCallExpr":
+            cal = strip(x["c"][0])
+            if cal and cal.get("c") and (strip_all(cal["c"][0]) or {}).get("d") == d:
+                nm = cal.get("n")
+                if nm in ("push_back", "append", "operator+=") and len(x["c"]) > 1:
+                    return is_slash(x["c"][-1])
+                if nm in flow.MUTATORS:
+                    return False
+        if k == "CXXOperatorCallExpr" and x.get("op") in ("+=", "=") and len(x["c"]) == 3 and \
+                (strip_all(x["c"][1]) or {}).get("d") == d:
+            return is_slash(x["c"][2]) if x["op"] == "+=" else False
+        if k == "DeclStmt" and any(v.get("d") == d for v in x.get("c", [])):
+            return False
+        return st
+
+    def edge_gen(p, s_):
+        for k in g.edge_facts.get((p, s_), ()):
+            f = g.rep.get(k)
+            if f is None or f[0] != "C" or f[2] != "==":
+                continue
+            for a, b in ((f[1], f[3]), (f[3], f[1])):
+                x = strip_all(a)
+                if folded(b) == 47 and x is not None and x.get("k") == "CXXMemberCallExpr":
+                    cal = strip(x["c"][0])
+                    if cal and cal.get("n") == "back" and cal.get("c") and (strip_all(cal["c"][0]) or {}).get("d") == d:
+                        return True
+        return False
+    out = {b: True for b in cfg.blocks}
+    inn = {b: True for b in cfg.blocks}
+    changed = True
+    while changed:
+        changed = False
+        for b in cfg.blocks:
+            if b == cfg.entry or not cfg.pred[b]:
+                i = False
+            else:
+                i = all(out[p] or edge_gen(p, b) for p in cfg.pred[b])
+            st = i
+            for e in cfg.blocks[b]["e"]:
+                x = fn.nodes.get(e) if isinstance(e, int) else None
+                if x is not None:
+                    st = transfer(st, x)
+            if i != inn[b] or st != out[b]:
+                inn[b], out[b] = i, st
+                changed = True
+
+    def at(node):
+        pos = g.position(node)
+        if pos is None:
+            return None
+        st = inn[pos[0]]
+        for e in cfg.blocks[pos[0]]["e"][:pos[1]]:
+            x = fn.nodes.get(e) if isinstance(e, int) else None
+            if x is not None:
+                st = transfer(st, x)
+        return st
+    return at
+
+
+def rule_directory_separator(prog, fixture=False):
+    r = RuleResult("R-C12-4", "where an output path is formed from the destination directory given on the command "
+                   "line, the directory string certainly ends in '/' (tested with back() == '/' or a '/' appended on "
+                   "every path): otherwise the leaf name is glued onto the last component and the file lands in the "
+                   "parent directory", floor=0 if fixture else 2)
+    for fn in prog.functions.values():
+        # local strings initialised from the argument vector
+        dests = []
+        for v in fn.walk():
+            if v.get("k") == "VarDecl" and v.get("c") and "basic_string" in (v.get("ct") or v.get("t") or ""):
+                if any(x.get("k") == "DeclRefExpr" and x.get("dk") == "ParmVar" and x.get("n") == "args" for x in walk(v["c"][0])):
+                    dests.append(v)
+        for v in dests:
+            g = Guards(fn)
+            at = _ends_with_slash_states(fn, g, v["d"])
+            k = 0
+            for n in fn.walk():
+                use = False
+                if n.get("k") == "CXXOperatorCallExpr" and n.get("op") == "+" and len(n["c"]) == 3 and \
+                        (strip_all(n["c"][1]) or {}).get("d") == v["d"]:
+                    use = True
+                elif n.get("k") in ("CallExpr", "CXXMemberCallExpr") and prog.call_targets(fn, n) and \
+                        any((strip_all(a) or {}).get("d") == v["d"] for a in call_args(n)):
+                    use = True
+                if not use:
+                    continue
+                st = at(n)
+                if st is None:
+                    continue
+                k += 1
+                key = "%s::%s::%s#%d" % (fn.relfile(), fn.qn, v["n"], k)
+                r.add(key, fn.loc(n), bool(st), "directory ends in '/'" if st else
+                      "`%s` is used to form an output path on a path where it need not end in '/': a destination "
+                      "whose last character is taken for a separator (or no separator is added) makes the files land "
+                      "beside the destination directory, not inside it" % v["n"])
+    return r
+
+
 def rule_ir_census(ctx):
     """Thorough tier: file-modifying entry points among the linked program's
     undefined external symbols must be explainable by the confirmed table."""
@@ -526,7 +638,7 @@ def rule_ir_census(ctx):
 
 def run(ctx):
     prog = ctx.prog("dfs", "N")
-    res = [rule_census(prog), rule_path_confinement(prog), rule_not_an_input(prog)]
+    res = [rule_census(prog), rule_path_confinement(prog), rule_not_an_input(prog), rule_directory_separator(prog)]
     if ctx.tier == "thorough":
         res.append(rule_ir_census(ctx))
     return res
